@@ -1293,7 +1293,11 @@ fn dump(a: &Args) -> i32 {
                 text.push_str(&format!(";@{k} {}", op.text()));
             }
         }
-        out(&format!("{pname}\t{layout_seed}\t{text}\n"));
+        // the interpreter is some thousand times slower than native code: the rare very long
+        // histories (churn runs, giant hubs) stay with the native runs
+        if o.ops.len() <= 400 {
+            out(&format!("{pname}\t{layout_seed}\t{text}\n"));
+        }
         unsafe { alloc::_exit(0) };
     }
     0
